@@ -1,6 +1,1269 @@
-//! C04 — harness module not built yet.
+//! C04 — mints happen only inside the sale window and only for entitled buyers
+//! (vending family: six minters x their compatible whitelist kinds).
+//!
+//! Histories walk the clock over every boundary instant (t-1ns, t, t+1ns) of the minter
+//! start, the whitelist window(s) and every stage edge, with members, non-members,
+//! members of another stage, Merkle proofs (own, someone else's, none), schedule
+//! updates (UpdateStartTime, SetWhitelist) at their own boundaries, and random
+//! interleavings.  Monitors are written from the property text and look only at what
+//! the contracts' queries said right before each step and at what the step did.
+//! Every minter step is also printed for the Coq model (corr/C04Corr.v).
+use crate::chain;
+use crate::util::*;
+use crate::w_sale::*;
 use crate::Args;
-pub fn run(_a: &Args) {
-    eprintln!("C04: harness module not built yet");
-    std::process::exit(2);
+use cosmwasm_std::Addr;
+use serde::{Deserialize, Serialize};
+use serde_json::{json, Value};
+use std::collections::{BTreeMap, BTreeSet};
+
+const NS: u64 = 1_000_000_000;
+const M1: &str = "buyer1";
+const M2: &str = "buyer2";
+const NM: &str = "buyer3";
+
+/// an instant relative to world creation: seconds + signed nanoseconds
+#[derive(Clone, Copy, Debug, Serialize, Deserialize, PartialEq, Eq, PartialOrd, Ord)]
+pub struct T(pub u64, pub i64);
+impl T {
+    fn plus(self, d: i64) -> T {
+        T(self.0, self.1 + d)
+    }
+    fn ns(self) -> i128 {
+        self.0 as i128 * NS as i128 + self.1 as i128
+    }
+}
+
+#[derive(Clone, Copy, Debug, Serialize, Deserialize, PartialEq, Eq)]
+pub enum Kind {
+    Plain,
+    Tiered,
+    Flex,
+    TieredFlex,
+    Merkle,
+    TieredMerkle,
+}
+impl Kind {
+    fn tiered(self) -> bool {
+        matches!(self, Kind::Tiered | Kind::TieredFlex | Kind::TieredMerkle)
+    }
+    fn merkle(self) -> bool {
+        matches!(self, Kind::Merkle | Kind::TieredMerkle)
+    }
+    fn flex(self) -> bool {
+        matches!(self, Kind::Flex | Kind::TieredFlex)
+    }
+    fn code_key(self) -> &'static str {
+        match self {
+            Kind::Plain => "plain",
+            Kind::Tiered => "tiered",
+            Kind::Flex => "flex",
+            Kind::TieredFlex => "tiered-flex",
+            Kind::Merkle => "merkle",
+            Kind::TieredMerkle => "tiered-merkle",
+        }
+    }
+    fn name(self) -> &'static str {
+        self.code_key()
+    }
+}
+
+/// whitelist kinds a minter variant is meant to be paired with
+fn compatible(variant: usize) -> &'static [Kind] {
+    let v = VARIANTS[variant];
+    if v.flex {
+        &[Kind::Flex, Kind::TieredFlex]
+    } else if v.merkle {
+        &[Kind::Plain, Kind::Tiered, Kind::Merkle, Kind::TieredMerkle]
+    } else {
+        &[Kind::Plain, Kind::Tiered]
+    }
+}
+
+#[derive(Clone, Debug, Serialize, Deserialize)]
+pub struct StageSpec {
+    pub start: T,
+    pub end: T,
+    pub price: u128,
+    pub members: Vec<String>,
+    pub stage_limit: Option<u32>,
+}
+#[derive(Clone, Debug, Serialize, Deserialize)]
+pub struct WlSpec {
+    pub kind: Kind,
+    pub stages: Vec<StageSpec>,
+    pub limit: u32,
+    /// Merkle leaf format: 0 sender; 1 sender+allocation; 2 stage+sender; 3 stage+sender+allocation
+    pub leaf_fmt: u8,
+}
+
+#[derive(Clone, Debug, Serialize, Deserialize)]
+pub enum COp {
+    /// an operation of the sale world (w_sale)
+    S(Op),
+    /// SetWhitelist{address of the whitelist in `slot`}
+    Attach { who: String, slot: usize },
+    /// Mint with Merkle arguments: the proof is the one of `proof_for`'s leaf in tree `tree` of
+    /// the whitelist in `slot` (None: no proof is sent); stage/allocation are that tree's
+    MintP { who: String, funds: Vec<(String, u128)>, slot: usize, tree: usize, proof_for: Option<String> },
+}
+
+#[derive(Clone, Debug, Serialize, Deserialize)]
+pub struct Case {
+    pub label: String,
+    pub variant: usize,
+    pub num_tokens: u32,
+    pub pal: u32,
+    pub price: u128,
+    pub start_in: u64,
+    /// whitelists created at world creation (before the balance snapshot), by slot
+    pub wls: Vec<WlSpec>,
+    /// attach slot 0 through the factory's create message is not possible for all kinds, so
+    /// the first op of a case that wants an initial whitelist is an Attach at creation time
+    pub ops: Vec<COp>,
+}
+
+// ---------- Merkle trees as the two Merkle whitelists verify them ----------
+fn h_plain(b: &[u8]) -> Vec<u8> {
+    use sha2::{Digest, Sha256};
+    Sha256::digest(b).to_vec()
+}
+fn h_tiered(b: &[u8]) -> Vec<u8> {
+    blake3::hash(b).as_bytes()[..16].to_vec()
+}
+fn pair(h: fn(&[u8]) -> Vec<u8>, a: &[u8], b: &[u8]) -> Vec<u8> {
+    let (x, y) = if a <= b { (a, b) } else { (b, a) };
+    let mut c = x.to_vec();
+    c.extend_from_slice(y);
+    h(&c)
+}
+/// root and the proof of leaf `idx` (sorted-pair hashing, an odd node is promoted)
+fn merkle(h: fn(&[u8]) -> Vec<u8>, leaves: &[String], idx: Option<usize>) -> (String, Vec<String>) {
+    let mut level: Vec<Vec<u8>> = leaves.iter().map(|l| h(l.as_bytes())).collect();
+    let mut i = idx.unwrap_or(0);
+    let mut proof = vec![];
+    while level.len() > 1 {
+        if i ^ 1 < level.len() {
+            proof.push(hex::encode(&level[i ^ 1]));
+        }
+        let mut next = vec![];
+        for k in (0..level.len()).step_by(2) {
+            if k + 1 < level.len() {
+                next.push(pair(h, &level[k], &level[k + 1]));
+            } else {
+                next.push(level[k].clone());
+            }
+        }
+        level = next;
+        i /= 2;
+    }
+    (hex::encode(&level[0]), if idx.is_some() { proof } else { vec![] })
+}
+
+impl WlSpec {
+    fn hasher(&self) -> fn(&[u8]) -> Vec<u8> {
+        if self.kind == Kind::TieredMerkle {
+            h_tiered
+        } else {
+            h_plain
+        }
+    }
+    /// (stage, allocation) arguments bound into the leaves of tree `tree`
+    fn leaf_args(&self, tree: usize) -> (Option<u32>, Option<u32>) {
+        let st = Some(tree as u32 + 1);
+        let al = Some(self.limit);
+        match self.leaf_fmt {
+            0 => (None, None),
+            1 => (None, al),
+            2 => (st, None),
+            _ => (st, al),
+        }
+    }
+    fn leaf(&self, tree: usize, who: &str) -> String {
+        match self.leaf_args(tree) {
+            (None, Some(a)) => format!("{}{}", who, a),
+            (Some(s), None) => format!("{}{}", s, who),
+            (Some(s), Some(a)) => format!("{}{}{}", s, who, a),
+            (None, None) => who.to_string(),
+        }
+    }
+    fn leaves(&self, tree: usize) -> Vec<String> {
+        let mut v: Vec<String> = self.stages[tree].members.iter().map(|m| self.leaf(tree, m)).collect();
+        v.push("padding-a".into());
+        v.push("padding-b".into());
+        v.push("padding-c".into());
+        v
+    }
+    fn root(&self, tree: usize) -> String {
+        merkle(self.hasher(), &self.leaves(tree), None).0
+    }
+    /// proof of `who`'s leaf in `tree`; for a non-member the proof of the first padding leaf
+    fn proof(&self, tree: usize, who: &str) -> Vec<String> {
+        let ls = self.leaves(tree);
+        let idx = ls.iter().position(|l| *l == self.leaf(tree, who)).unwrap_or(self.stages[tree].members.len());
+        merkle(self.hasher(), &ls, Some(idx)).1
+    }
+}
+
+// ---------- the whitelists of a running case ----------
+struct WlInfo {
+    spec: WlSpec,
+    addr: Addr,
+    /// absolute (start, end) per stage
+    windows: Vec<(u64, u64)>,
+    /// members added to stage 0 after creation (WlAddMember)
+    added: BTreeSet<String>,
+}
+impl WlInfo {
+    /// the property's activity rule, from the windows the whitelist was created with
+    fn active_stage(&self, now: u64) -> Option<usize> {
+        if self.spec.kind.tiered() {
+            self.windows.iter().position(|(s, e)| *s <= now && now <= *e)
+        } else if self.windows[0].0 <= now && now < self.windows[0].1 {
+            Some(0)
+        } else {
+            None
+        }
+    }
+    fn listed(&self, stage: usize, who: &str) -> bool {
+        self.spec.stages[stage].members.iter().any(|m| m == who) || (stage == 0 && self.added.contains(who))
+    }
+}
+
+fn ts(n: u64) -> Value {
+    json!(n.to_string())
+}
+fn coinv(amount: u128, denom: &str) -> Value {
+    json!({"amount": amount.to_string(), "denom": denom})
+}
+
+fn create_wl(w: &mut SaleWorld, spec: &WlSpec) -> Result<WlInfo, String> {
+    let windows: Vec<(u64, u64)> = spec.stages.iter().map(|s| (w.abs_time(s.start.0, s.start.1), w.abs_time(s.end.0, s.end.1))).collect();
+    let flexm = |ms: &Vec<String>| -> Vec<Value> { ms.iter().map(|m| json!({"address": m, "mint_count": spec.limit})).collect() };
+    let s0 = &spec.stages[0];
+    let stages_json = |with_pal: bool| -> Vec<Value> {
+        spec.stages
+            .iter()
+            .enumerate()
+            .map(|(i, s)| {
+                let mut v = json!({"name": format!("stage{}", i + 1), "start_time": ts(windows[i].0), "end_time": ts(windows[i].1),
+                                   "mint_price": coinv(s.price, NATIVE), "mint_count_limit": s.stage_limit});
+                if with_pal {
+                    v["per_address_limit"] = json!(spec.limit);
+                }
+                v
+            })
+            .collect()
+    };
+    let (msg, fee) = match spec.kind {
+        Kind::Plain => (
+            json!({"members": s0.members, "start_time": ts(windows[0].0), "end_time": ts(windows[0].1),
+                   "mint_price": coinv(s0.price, NATIVE), "per_address_limit": spec.limit, "member_limit": 1000,
+                   "admins": [CREATOR], "admins_mutable": true}),
+            100_000_000u128,
+        ),
+        Kind::Flex => (
+            json!({"members": flexm(&s0.members), "start_time": ts(windows[0].0), "end_time": ts(windows[0].1),
+                   "mint_price": coinv(s0.price, NATIVE), "member_limit": 1000, "admins": [CREATOR],
+                   "admins_mutable": true, "whale_cap": null}),
+            100_000_000,
+        ),
+        Kind::Tiered => (
+            json!({"members": spec.stages.iter().map(|s| s.members.clone()).collect::<Vec<_>>(), "stages": stages_json(true),
+                   "member_limit": 1000, "admins": [CREATOR], "admins_mutable": true}),
+            100_000_000,
+        ),
+        Kind::TieredFlex => (
+            json!({"members": spec.stages.iter().map(|s| flexm(&s.members)).collect::<Vec<_>>(), "stages": stages_json(false),
+                   "member_limit": 1000, "admins": [CREATOR], "admins_mutable": true, "whale_cap": null}),
+            100_000_000,
+        ),
+        Kind::Merkle => (
+            json!({"merkle_root": spec.root(0), "merkle_tree_uri": null, "start_time": ts(windows[0].0), "end_time": ts(windows[0].1),
+                   "mint_price": coinv(s0.price, NATIVE), "per_address_limit": spec.limit,
+                   "admins": [CREATOR], "admins_mutable": true}),
+            1_000_000_000,
+        ),
+        Kind::TieredMerkle => (
+            json!({"stages": stages_json(true), "merkle_roots": (0..spec.stages.len()).map(|i| spec.root(i)).collect::<Vec<_>>(),
+                   "merkle_tree_uris": null, "admins": [CREATOR], "admins_mutable": true}),
+            1_000_000_000,
+        ),
+    };
+    let addr = w.make_whitelist_raw(spec.kind.code_key(), &msg, fee)?;
+    Ok(WlInfo { spec: spec.clone(), addr, windows, added: BTreeSet::new() })
+}
+
+// ---------- SetWhitelist{existing address} as a recorded minter step ----------
+fn attach_step(w: &mut SaleWorld, who: &str, wl: &Addr) -> StepOut {
+    let now = chain::now(&w.app);
+    w.proof_ctx = None;
+    let fp = w.fp_coq();
+    let wv = w.cur_wl_view(who);
+    let before_digest = chain::storage_digest(&w.app, &w.minter);
+    let before_bal = w.balances_raw();
+    let before_tokens = w.num_tokens_collection();
+    let sender_id = w.addrs.id(who);
+    let minter = w.minter.clone();
+    let minter_id = w.addrs.id(minter.as_str());
+    let env = format!("(mkEnv {} {} [] {})", now, sender_id, minter_id);
+    let new_view = w.wl_view(wl, who).unwrap_or_else(|| "None".into());
+    let res = chain::exec(&mut w.app, who, &minter, &json!({"set_whitelist": {"whitelist": wl.to_string()}}), &[]);
+    let ok = res.is_ok();
+    let coq_op = format!("(OSetWhitelist true {} {})", w.addrs.id(wl.as_str()), new_view);
+    let wv_after = w.cur_wl_view(who);
+    let obs = w.observe();
+    let obs_coq = coq_list(&obs.iter().map(|x| x.to_string()).collect::<Vec<_>>());
+    let bal = w.balances_coq();
+    let coq = format!("(mkStep {} {} {} {} {} None {} {} {})", env, fp, wv, coq_op, coq_bool(ok), wv_after, obs_coq, bal);
+    let mut err = res.err();
+    if !ok {
+        let after_digest = chain::storage_digest(&w.app, &w.minter);
+        if after_digest != before_digest || w.balances_raw() != before_bal || w.num_tokens_collection() != before_tokens {
+            err = Some(format!("STATE-CHANGED-ON-FAILURE: {}", err.unwrap_or_default()));
+        }
+    }
+    StepOut { coq: Some(coq), ok, err, minted: None, is_minter_step: true }
+}
+
+// ---------- what the contracts say right before a step ----------
+struct Pre {
+    now: u64,
+    start: u64,
+    wl: Option<String>,
+    /// Config.is_active and the IsActive query of the attached whitelist
+    active_cfg: Option<bool>,
+    active_q: Option<bool>,
+    wl_price: Option<(u128, String)>,
+    stage_id: Option<u64>,
+    public_price: (u128, String),
+    mintable: u64,
+    pal: u64,
+}
+fn q(w: &SaleWorld, a: &str, m: Value) -> Option<Value> {
+    w.app.wrap().query_wasm_smart::<Value>(Addr::unchecked(a), &m).ok()
+}
+fn read_pre(w: &SaleWorld) -> Pre {
+    let c = w.minter_config();
+    let start: u64 = c["start_time"].as_str().unwrap().parse().unwrap();
+    let wl = c["whitelist"].as_str().map(|s| s.to_string());
+    let p = if c["discount_price"].get("amount").is_some() { &c["discount_price"] } else { &c["mint_price"] };
+    let public_price = (p["amount"].as_str().unwrap().parse().unwrap(), p["denom"].as_str().unwrap().to_string());
+    let mut pre = Pre {
+        now: chain::now(&w.app),
+        start,
+        wl: wl.clone(),
+        active_cfg: None,
+        active_q: None,
+        wl_price: None,
+        stage_id: None,
+        public_price,
+        mintable: w.mintable(),
+        pal: c["per_address_limit"].as_u64().unwrap(),
+    };
+    if let Some(a) = wl {
+        if let Some(cfg) = q(w, &a, json!({"config": {}})) {
+            pre.active_cfg = cfg["is_active"].as_bool();
+            pre.wl_price = cfg["mint_price"]["amount"]
+                .as_str()
+                .and_then(|x| x.parse().ok())
+                .map(|x| (x, cfg["mint_price"]["denom"].as_str().unwrap_or("").to_string()));
+        }
+        pre.active_q = q(w, &a, json!({"is_active": {}})).and_then(|v| v["is_active"].as_bool());
+        pre.stage_id = q(w, &a, json!({"active_stage_id": {}})).and_then(|v| v.as_u64());
+    }
+    pre
+}
+
+fn kind_of(op: &COp) -> &'static str {
+    match op {
+        COp::Attach { .. } => "set_whitelist",
+        COp::MintP { .. } => "mint_merkle",
+        COp::S(o) => match o {
+            Op::At { .. } => "at",
+            Op::Mint { .. } => "mint",
+            Op::MintM { .. } => "mint_merkle",
+            Op::MintTo { .. } => "mint_to",
+            Op::MintFor { .. } => "mint_for",
+            Op::Purge { .. } => "purge",
+            Op::Shuffle { .. } => "shuffle",
+            Op::BurnRemaining { .. } => "burn_remaining",
+            Op::UpdateMintPrice { .. } => "update_mint_price",
+            Op::UpdateStartTime { .. } => "update_start_time",
+            Op::UpdateStartTradingTime { .. } => "update_start_trading_time",
+            Op::UpdatePerAddressLimit { .. } => "update_per_address_limit",
+            Op::SetWhitelist { .. } => "set_whitelist_new",
+            Op::UpdateDiscountPrice { .. } => "update_discount_price",
+            Op::RemoveDiscountPrice { .. } => "remove_discount_price",
+            Op::SudoParams { .. } => "sudo_params",
+            Op::WlAddMember { .. } => "wl_add_member",
+        },
+    }
+}
+
+pub struct CaseResult {
+    pub coq: Option<String>,
+    pub steps: u64,
+    pub ok_steps: u64,
+    pub violations: Vec<(String, String, usize)>, // (key, what, op index)
+    pub hist: BTreeMap<String, u64>,
+    pub instants: BTreeSet<String>,
+}
+
+pub fn run_case(c: &Case) -> CaseResult {
+    let mut res = CaseResult { coq: None, steps: 0, ok_steps: 0, violations: vec![], hist: BTreeMap::new(), instants: BTreeSet::new() };
+    let mut cfg = SaleCfg::basic(c.variant);
+    cfg.num_tokens = c.num_tokens;
+    cfg.pal = c.pal;
+    cfg.price = c.price;
+    cfg.start_in_secs = c.start_in;
+    let vname = VARIANTS[c.variant].name;
+    let mut w = match SaleWorld::new(cfg) {
+        Ok(w) => w,
+        Err(_) => {
+            *res.hist.entry(format!("{}:create:err", vname)).or_insert(0) += 1;
+            return res;
+        }
+    };
+    let mut wls: Vec<WlInfo> = vec![];
+    for spec in &c.wls {
+        match create_wl(&mut w, spec) {
+            Ok(i) => wls.push(i),
+            Err(e) => {
+                *res.hist.entry(format!("{}:create-whitelist-{}:err", vname, spec.kind.name())).or_insert(0) += 1;
+                res.violations.push(("C04:harness-whitelist-not-created".into(), format!("{}: {:?}: {}", vname, spec.kind, e), 0));
+                return res;
+            }
+        }
+    }
+    let init = w.init_state_coq();
+    let init_bal = w.balances_coq();
+    let mut steps: Vec<String> = vec![];
+    let mut probes: Vec<String> = vec![];
+    // monitor state: successes per sender under the public rules / per (sender, whitelist, stage)
+    let mut pub_ok: BTreeMap<String, u64> = BTreeMap::new();
+    let mut wl_ok: BTreeMap<(String, String, usize), u64> = BTreeMap::new();
+    let mut stage_ok: BTreeMap<(String, usize), u64> = BTreeMap::new();
+    let wl_label = c.wls.first().map(|s| s.kind.name()).unwrap_or("none");
+
+    for (oi, cop) in c.ops.iter().enumerate() {
+        // ----- resolve the op -----
+        let mut merkle_args: Option<(Option<u32>, Option<Vec<String>>, Option<u32>)> = None;
+        let eff: Option<Op> = match cop {
+            COp::S(o) => {
+                if let Op::MintM { stage, proof, allocation, .. } = o {
+                    merkle_args = Some((*stage, proof.clone(), *allocation));
+                }
+                Some(o.clone())
+            }
+            COp::MintP { who, funds, slot, tree, proof_for } => {
+                let (stage, allocation, proof) = match wls.get(*slot) {
+                    Some(i) if i.spec.kind.merkle() => {
+                        let t = (*tree).min(i.spec.stages.len() - 1);
+                        let (s, a) = i.spec.leaf_args(t);
+                        (s, a, proof_for.as_ref().map(|p| i.spec.proof(t, p)))
+                    }
+                    _ => (None, None, proof_for.as_ref().map(|p| vec![hex::encode(h_plain(p.as_bytes()))])),
+                };
+                merkle_args = Some((stage, proof.clone(), allocation));
+                Some(Op::MintM { who: who.clone(), funds: funds.clone(), stage, proof, allocation })
+            }
+            COp::Attach { .. } => None,
+        };
+        if let Some(Op::At { .. }) = &eff {
+            w.run(eff.as_ref().unwrap());
+            continue;
+        }
+        if let Some(Op::WlAddMember { who }) = &eff {
+            let out = w.run(eff.as_ref().unwrap());
+            if out.ok {
+                if let Some(a) = w.whitelist.clone() {
+                    if let Some(i) = wls.iter_mut().find(|i| i.addr == a) {
+                        i.added.insert(who.clone());
+                    }
+                }
+            }
+            continue;
+        }
+        if let Some(Op::SudoParams { .. }) = &eff {
+            w.run(eff.as_ref().unwrap());
+            continue;
+        }
+        // ----- read the schedule back from the contracts -----
+        let pre = read_pre(&w);
+        let bal_before = w.balances_raw();
+        let cur = pre.wl.as_ref().and_then(|a| wls.iter().position(|i| i.addr.as_str() == a));
+        res.instants.insert(format!("{}@{}", kind_of(cop), pre.now as i128 - w.t0 as i128));
+        // tie of the oracle: the attached whitelist's activity answers vs the windows it was created with
+        if let Some(ci) = cur {
+            let i = &wls[ci];
+            let spec_active = i.active_stage(pre.now);
+            let windows = coq_list(&i.windows.iter().map(|(s, e)| format!("({}, {})", s, e)).collect::<Vec<_>>());
+            probes.push(format!(
+                "(mkProbe {} {} {} {} {})",
+                coq_bool(i.spec.kind.tiered()),
+                windows,
+                pre.now,
+                coq_bool(pre.active_cfg.unwrap_or(false)),
+                pre.stage_id.unwrap_or(0)
+            ));
+            if pre.active_cfg != Some(spec_active.is_some()) || pre.active_q != Some(spec_active.is_some()) {
+                res.violations.push((
+                    "C04:whitelist-activity-vs-window".into(),
+                    format!("{}: {} whitelist with windows {:?} at {}: Config.is_active={:?} IsActive={:?}, the windows say {}",
+                        vname, i.spec.kind.name(), i.windows, pre.now, pre.active_cfg, pre.active_q, spec_active.is_some()),
+                    oi,
+                ));
+            }
+            if i.spec.kind.tiered() && pre.stage_id != Some(spec_active.map(|x| x as u64 + 1).unwrap_or(0)) {
+                res.violations.push((
+                    "C04:whitelist-active-stage-vs-window".into(),
+                    format!("{}: {} whitelist with windows {:?} at {}: ActiveStageId={:?}, the windows say {:?}",
+                        vname, i.spec.kind.name(), i.windows, pre.now, pre.stage_id, spec_active.map(|x| x + 1)),
+                    oi,
+                ));
+            }
+        }
+        // ----- run it -----
+        let (out, who, funds): (StepOut, String, Vec<(String, u128)>) = match cop {
+            COp::Attach { who, slot } => match wls.get(*slot) {
+                Some(i) => {
+                    let a = i.addr.clone();
+                    let k = i.spec.kind;
+                    let out = attach_step(&mut w, who, &a);
+                    if out.ok {
+                        w.whitelist = Some(a);
+                        w.wl_kind = match k {
+                            Kind::Plain => WlKind::Plain,
+                            Kind::Tiered => WlKind::Tiered,
+                            Kind::Flex => WlKind::Flex,
+                            Kind::TieredFlex => WlKind::TieredFlex,
+                            _ => WlKind::None,
+                        };
+                    }
+                    (out, who.clone(), vec![])
+                }
+                None => continue,
+            },
+            _ => {
+                let o = eff.as_ref().unwrap();
+                let (who, funds) = match o {
+                    Op::Mint { who, funds } | Op::MintM { who, funds, .. } | Op::Shuffle { who, funds } => (who.clone(), funds.clone()),
+                    Op::MintTo { who, funds, .. } | Op::MintFor { who, funds, .. } => (who.clone(), funds.clone()),
+                    Op::Purge { who }
+                    | Op::BurnRemaining { who }
+                    | Op::UpdateMintPrice { who, .. }
+                    | Op::UpdateStartTime { who, .. }
+                    | Op::UpdateStartTradingTime { who, .. }
+                    | Op::UpdatePerAddressLimit { who, .. }
+                    | Op::SetWhitelist { who, .. }
+                    | Op::UpdateDiscountPrice { who, .. }
+                    | Op::RemoveDiscountPrice { who } => (who.clone(), vec![]),
+                    _ => continue,
+                };
+                // the membership question is asked before the step (the step may change the answer's context)
+                (w.run(o), who, funds)
+            }
+        };
+        if !out.is_minter_step {
+            continue;
+        }
+        res.steps += 1;
+        if out.ok {
+            res.ok_steps += 1;
+        }
+        *res.hist.entry(format!("{}+{}:{}:{}", vname, wl_label, kind_of(cop), if out.ok { "ok" } else { "err" })).or_insert(0) += 1;
+        if let Some(s) = out.coq {
+            steps.push(s);
+        }
+        if let Some(e) = &out.err {
+            if e.starts_with("STATE-CHANGED-ON-FAILURE") {
+                res.violations.push(("C04:failed-call-changed-state".into(), format!("{}: {:?}: {}", vname, cop, e), oi));
+            }
+        }
+        let post = w.minter_config();
+        let post_start: u64 = post["start_time"].as_str().unwrap().parse().unwrap();
+        let post_wl = post["whitelist"].as_str().map(|s| s.to_string());
+        let active = pre.wl.is_some() && pre.active_cfg == Some(true);
+        let bal_after = w.balances_raw();
+        let delta = |who: &str, d: &str| -> i128 {
+            let k = (who.to_string(), d.to_string());
+            *bal_before.get(&k).unwrap_or(&0) as i128 - *bal_after.get(&k).unwrap_or(&0) as i128
+        };
+        let exact = |p: &(u128, String)| -> bool { funds.len() == 1 && funds[0].0 == p.1 && funds[0].1 == p.0 };
+
+        // ===== monitors, from the property text =====
+        let is_buyer_mint = matches!(cop, COp::MintP { .. } | COp::S(Op::Mint { .. }) | COp::S(Op::MintM { .. }));
+        if is_buyer_mint {
+            // membership as the whitelist itself answers it for this sender (and this proof)
+            // and as the case's member lists / trees define it
+            let (member_q, member_spec, stage_idx): (Option<bool>, Option<bool>, Option<usize>) = match cur {
+                Some(ci) => {
+                    let i = &wls[ci];
+                    let st = i.active_stage(pre.now);
+                    if i.spec.kind.merkle() {
+                        let (mq, ms) = match &merkle_args {
+                            Some((stage, Some(proof), alloc)) => {
+                                let leaf = match (stage, alloc) {
+                                    (None, Some(a)) => format!("{}{}", who, a),
+                                    (Some(s), None) => format!("{}{}", s, who),
+                                    (Some(s), Some(a)) => format!("{}{}{}", s, who, a),
+                                    (None, None) => who.clone(),
+                                };
+                                // NOTE: asked after the step; these whitelists have no mutable membership and the clock has not moved
+                                let ans = q(&w, i.addr.as_str(), json!({"has_member": {"member": leaf, "proof_hashes": proof}}))
+                                    .and_then(|v| v["has_member"].as_bool());
+                                let spec = st.map(|s| {
+                                    i.listed(s, &who) && i.spec.leaf(s, &who) == leaf && i.spec.proof(s, &who) == *proof
+                                });
+                                (ans, spec)
+                            }
+                            _ => (Some(false), Some(false)), // no proof: no entitlement on a Merkle whitelist
+                        };
+                        (mq, ms, st)
+                    } else {
+                        let ans = q(&w, i.addr.as_str(), json!({"has_member": {"member": who}})).and_then(|v| v["has_member"].as_bool());
+                        (ans, st.map(|s| i.listed(s, &who)), st)
+                    }
+                }
+                None => (None, None, None),
+            };
+            if active && cur.is_some() && member_spec.is_some() && member_q.is_some() && member_q != member_spec {
+                res.violations.push((
+                    "C04:whitelist-membership-vs-lists".into(),
+                    format!("{}: whitelist answers has_member={:?} for {} at {}, the member lists / trees say {:?}", vname, member_q, who, pre.now, member_spec),
+                    oi,
+                ));
+            }
+            if out.ok {
+                if !active && pre.now < pre.start {
+                    res.violations.push((
+                        "C04:public-mint-before-start".into(),
+                        format!("{}: {:?} succeeded at {} with no active whitelist (whitelist {:?}, is_active {:?}), start time {}", vname, cop, pre.now, pre.wl, pre.active_cfg, pre.start),
+                        oi,
+                    ));
+                }
+                if active && member_q != Some(true) {
+                    res.violations.push((
+                        "C04:nonmember-mint-while-whitelist-active".into(),
+                        format!("{}: {:?} succeeded at {} while the whitelist is active and answers has_member={:?}", vname, cop, pre.now, member_q),
+                        oi,
+                    ));
+                }
+                if active && member_spec == Some(false) {
+                    res.violations.push((
+                        "C04:unentitled-mint-while-whitelist-active".into(),
+                        format!("{}: {:?} succeeded at {} while the whitelist is active; sender is not in the active stage's list / holds no proof bound to it", vname, cop, pre.now),
+                        oi,
+                    ));
+                }
+                if active {
+                    if let Some((p, d)) = &pre.wl_price {
+                        let other = if d == NATIVE { IBC } else { NATIVE };
+                        if delta(&who, d) != *p as i128 || delta(&who, other) != 0 {
+                            res.violations.push((
+                                "C04:whitelist-mint-not-charged-whitelist-price".into(),
+                                format!("{}: {:?} at {} under an active whitelist (price {} {}) cost the buyer {} {} / {} {}", vname, cop, pre.now, p, d, delta(&who, d), d, delta(&who, other), other),
+                                oi,
+                            ));
+                        }
+                        if let (Some(ci), Some(s)) = (cur, stage_idx) {
+                            if wls[ci].spec.stages[s].price != *p {
+                                res.violations.push((
+                                    "C04:whitelist-price-vs-stage".into(),
+                                    format!("{}: whitelist reports price {} at {}, the active stage was created with {}", vname, p, pre.now, wls[ci].spec.stages[s].price),
+                                    oi,
+                                ));
+                            }
+                        }
+                    }
+                    if let (Some(ci), Some(s)) = (cur, stage_idx) {
+                        *wl_ok.entry((who.clone(), wls[ci].addr.to_string(), s)).or_insert(0) += 1;
+                        *stage_ok.entry((wls[ci].addr.to_string(), s)).or_insert(0) += 1;
+                    }
+                } else {
+                    let (p, d) = &pre.public_price;
+                    if delta(&who, d) != *p as i128 {
+                        res.violations.push((
+                            "C04:public-mint-not-charged-public-price".into(),
+                            format!("{}: {:?} at {} under the public rules (price {} {}) cost the buyer {}", vname, cop, pre.now, p, d, delta(&who, d)),
+                            oi,
+                        ));
+                    }
+                    *pub_ok.entry(who.clone()).or_insert(0) += 1;
+                }
+            } else {
+                // the sale window is open: a buyer who meets every public condition is served
+                if !active && pre.now >= pre.start && exact(&pre.public_price) && pre.mintable > 0
+                    && *pub_ok.get(&who).unwrap_or(&0) < pre.pal && (pre.wl.is_none() || pre.active_cfg == Some(false))
+                {
+                    res.violations.push((
+                        "C04:public-mint-rejected-inside-window".into(),
+                        format!("{}: {:?} failed at {} >= start {} with no active whitelist, exact price, {} mintable, {} of {} public mints used: {:?}",
+                            vname, cop, pre.now, pre.start, pre.mintable, pub_ok.get(&who).unwrap_or(&0), pre.pal, out.err),
+                        oi,
+                    ));
+                }
+                // an entitled member offering the whitelist price on a first mint of the stage is served
+                if active && member_q == Some(true) && member_spec == Some(true) && pre.mintable > 0 {
+                    if let (Some(ci), Some(s), Some(p)) = (cur, stage_idx, &pre.wl_price) {
+                        let i = &wls[ci];
+                        let first = *wl_ok.get(&(who.clone(), i.addr.to_string(), s)).unwrap_or(&0) == 0;
+                        let total_wl: u64 = wl_ok.iter().filter(|((a, _, _), _)| *a == who).map(|(_, v)| *v).sum();
+                        let room = match i.spec.stages[s].stage_limit {
+                            None => true,
+                            Some(l) => *stage_ok.get(&(i.addr.to_string(), s)).unwrap_or(&0) < l as u64,
+                        };
+                        if exact(p) && first && total_wl == 0 && room {
+                            res.violations.push((
+                                "C04:member-mint-rejected-while-whitelist-active".into(),
+                                format!("{}: {:?} failed at {}: whitelist active, sender is a member of the active stage, exact whitelist price {}, first whitelist mint: {:?}", vname, cop, pre.now, p.0, out.err),
+                                oi,
+                            ));
+                        }
+                    }
+                }
+            }
+        }
+        if let COp::S(Op::UpdateStartTime { who, secs, nanos }) = cop {
+            let new = w.abs_time(*secs, *nanos);
+            if out.ok {
+                if !(pre.now < pre.start) {
+                    res.violations.push(("C04:start-time-changed-after-start".into(), format!("{}: UpdateStartTime({}) succeeded at {} >= start {}", vname, new, pre.now, pre.start), oi));
+                }
+                if new < pre.now {
+                    res.violations.push(("C04:start-time-moved-into-the-past".into(), format!("{}: UpdateStartTime({}) succeeded at {}", vname, new, pre.now), oi));
+                }
+                if who != CREATOR {
+                    res.violations.push(("C04:schedule-changed-by-non-admin".into(), format!("{}: UpdateStartTime by {} succeeded", vname, who), oi));
+                }
+                if post_start != new || post_wl != pre.wl {
+                    res.violations.push(("C04:update-start-time-wrong-result".into(), format!("{}: UpdateStartTime({}) left start {} whitelist {:?} (was {:?})", vname, new, post_start, post_wl, pre.wl), oi));
+                }
+            } else if who == CREATOR && pre.now < pre.start && new >= pre.now {
+                res.violations.push(("C04:safe-start-time-update-rejected".into(), format!("{}: UpdateStartTime({}) by the admin failed at {} < start {}: {:?}", vname, new, pre.now, pre.start, out.err), oi));
+            }
+        }
+        if let COp::Attach { who, slot } = cop {
+            let newi = &wls[*slot];
+            let new_active_spec = newi.active_stage(pre.now).is_some();
+            let new_active_q = q(&w, newi.addr.as_str(), json!({"is_active": {}})).and_then(|v| v["is_active"].as_bool());
+            if new_active_q != Some(new_active_spec) {
+                res.violations.push(("C04:whitelist-activity-vs-window".into(), format!("{}: new {} whitelist windows {:?} at {}: IsActive={:?}", vname, newi.spec.kind.name(), newi.windows, pre.now, new_active_q), oi));
+            }
+            if out.ok {
+                if !(pre.now < pre.start) {
+                    res.violations.push(("C04:whitelist-set-after-start".into(), format!("{}: SetWhitelist succeeded at {} >= start {}", vname, pre.now, pre.start), oi));
+                }
+                if active {
+                    res.violations.push(("C04:whitelist-replaced-while-active".into(), format!("{}: SetWhitelist succeeded at {} while the current whitelist {:?} is active", vname, pre.now, pre.wl), oi));
+                }
+                if new_active_spec || new_active_q == Some(true) {
+                    res.violations.push(("C04:active-whitelist-attached".into(), format!("{}: SetWhitelist succeeded at {} with a new whitelist that is active (windows {:?})", vname, pre.now, newi.windows), oi));
+                }
+                if who != CREATOR {
+                    res.violations.push(("C04:schedule-changed-by-non-admin".into(), format!("{}: SetWhitelist by {} succeeded", vname, who), oi));
+                }
+                if post_wl.as_deref() != Some(newi.addr.as_str()) || post_start != pre.start {
+                    res.violations.push(("C04:set-whitelist-wrong-result".into(), format!("{}: SetWhitelist({}) left whitelist {:?} start {}", vname, newi.addr, post_wl, post_start), oi));
+                }
+            } else if who == CREATOR && pre.now < pre.start && !active && !new_active_spec && (pre.wl.is_none() || pre.active_cfg == Some(false)) {
+                res.violations.push(("C04:safe-whitelist-change-rejected".into(), format!("{}: SetWhitelist({} {}) by the admin failed at {} < start {} with neither whitelist active: {:?}", vname, newi.spec.kind.name(), newi.addr, pre.now, pre.start, out.err), oi));
+            }
+        }
+        // whatever the call was: once the clock has reached the start time the schedule stays
+        if pre.now >= pre.start && (post_start != pre.start || post_wl != pre.wl) {
+            res.violations.push(("C04:schedule-changed-after-start".into(), format!("{}: {:?} at {} >= start {} changed start/whitelist to {} / {:?}", vname, cop, pre.now, pre.start, post_start, post_wl), oi));
+        }
+        if !matches!(cop, COp::Attach { .. } | COp::S(Op::UpdateStartTime { .. }) | COp::S(Op::SetWhitelist { .. })) && (post_start != pre.start || post_wl != pre.wl) {
+            res.violations.push(("C04:schedule-changed-by-unrelated-call".into(), format!("{}: {:?} changed start/whitelist", vname, cop), oi));
+        }
+        if res.violations.len() > 5 {
+            break;
+        }
+    }
+    let sale = case_coq(&mut w, &init, &init_bal, &steps);
+    res.coq = Some(format!("(mkC04 {} {})", sale, coq_list(&probes)));
+    res
+}
+
+// =====================================================================================
+// generators
+// =====================================================================================
+fn native(a: u128) -> Vec<(String, u128)> {
+    vec![(NATIVE.to_string(), a)]
+}
+fn at(t: T) -> COp {
+    COp::S(Op::At { secs: t.0, nanos: t.1 })
+}
+fn mint(who: &str, a: u128) -> COp {
+    COp::S(Op::Mint { who: who.into(), funds: native(a) })
+}
+fn mintp(who: &str, a: u128, tree: usize, proof_for: Option<&str>) -> COp {
+    COp::MintP { who: who.into(), funds: native(a), slot: 0, tree, proof_for: proof_for.map(|s| s.to_string()) }
+}
+fn attach(who: &str, slot: usize) -> COp {
+    COp::Attach { who: who.into(), slot }
+}
+fn ust(who: &str, t: T) -> COp {
+    COp::S(Op::UpdateStartTime { who: who.into(), secs: t.0, nanos: t.1 })
+}
+
+const PUB: u128 = 100;
+const START: u64 = 3000;
+
+/// schedule shapes: (whitelist, boundary instants)
+fn shape(kind: Kind, sh: usize) -> (WlSpec, Vec<T>) {
+    let st = |s: T, e: T, p: u128, m: &[&str], l: Option<u32>| StageSpec {
+        start: s,
+        end: e,
+        price: p,
+        members: m.iter().map(|x| x.to_string()).collect(),
+        stage_limit: l,
+    };
+    let s_ = T(START, 0);
+    let stages = if kind.tiered() {
+        match sh % 3 {
+            // two touching stages, both over before the public start
+            0 => vec![st(T(1000, 0), T(2000, 0), 60, &[M1], None), st(T(2000, 0), T(2500, 0), 70, &[M2], None)],
+            // three separated stages, the last one overlaps the public start; off-second edges
+            1 => vec![
+                st(T(1000, 0), T(1500, 0), 60, &[M1], None),
+                st(T(1700, 3), T(2000, 5), 70, &[M2], Some(5)),
+                st(T(2500, 0), T(3500, 0), 80, &[M1, M2], None),
+            ],
+            // two stages, the first ends exactly at the public start, the second starts after it
+            _ => vec![st(T(1000, 0), T(3000, 0), 60, &[M1], None), st(T(3200, 0), T(3300, 0), 70, &[M2], None)],
+        }
+    } else {
+        match sh % 3 {
+            0 => vec![st(T(1000, 0), T(2000, 0), 60, &[M1], None)],
+            1 => vec![st(T(1000, 7), T(4000, 0), 60, &[M1], None)], // still active after the public start
+            _ => vec![st(T(1000, 0), T(3000, 0), 60, &[M1], None)], // ends exactly at the public start
+        }
+    };
+    let mut bs: Vec<T> = vec![s_];
+    for s in &stages {
+        bs.push(s.start);
+        bs.push(s.end);
+    }
+    bs.sort();
+    bs.dedup();
+    (WlSpec { kind, stages, limit: 5, leaf_fmt: (sh % 4) as u8 }, bs)
+}
+
+/// who tries what at one instant
+fn block(variant: usize, spec: Option<&WlSpec>, now: T, airdrop: bool) -> Vec<COp> {
+    let v = VARIANTS[variant];
+    let mut o = vec![];
+    let (wlp, tree, ntrees) = match spec {
+        Some(s) => {
+            let n = now.ns();
+            let tiered = s.kind.tiered();
+            let idx = s.stages.iter().position(|x| x.start.ns() <= n && if tiered { n <= x.end.ns() } else { n < x.end.ns() });
+            (s.stages[idx.unwrap_or(0)].price, idx.unwrap_or(0), s.stages.len())
+        }
+        None => (60, 0, 1),
+    };
+    if v.merkle && spec.map(|s| s.kind.merkle()).unwrap_or(false) {
+        o.push(mintp(NM, wlp, tree, Some(M1))); // someone else's proof
+        o.push(mintp(M1, wlp, tree, None)); // no proof
+        o.push(mintp(M2, wlp, (tree + 1) % ntrees, Some(M2))); // a proof from another stage's tree
+        o.push(mint(NM, PUB));
+        o.push(mintp(M1, PUB, tree, Some(M1))); // own proof, public price
+        o.push(mintp(M1, wlp, tree, Some(M1))); // own proof, whitelist price
+        o.push(mintp(M2, wlp, tree, Some(M2)));
+    } else {
+        o.push(mint(NM, wlp)); // not a member, whitelist price
+        o.push(mint(NM, PUB)); // not a member, public price
+        o.push(mint(M2, wlp)); // member of another stage (tiered) / not a member
+        o.push(mint(M1, PUB)); // member, public price
+        if v.merkle && spec.is_some() {
+            o.push(mintp(NM, wlp, 0, Some(NM))); // a proof means nothing to a list whitelist
+            o.push(mintp(M1, wlp, 0, Some(M1)));
+        } else {
+            o.push(mint(M1, wlp)); // member, whitelist price
+        }
+    }
+    if airdrop {
+        o.push(COp::S(Op::MintTo { who: STRANGER.into(), recipient: NM.into(), funds: vec![] }));
+        o.push(COp::S(Op::MintTo { who: CREATOR.into(), recipient: NM.into(), funds: vec![] }));
+    }
+    o
+}
+
+fn base_case(label: String, variant: usize, wls: Vec<WlSpec>, ops: Vec<COp>) -> Case {
+    Case { label, variant, num_tokens: 24, pal: 3, price: PUB, start_in: START, wls, ops }
+}
+
+/// one history per boundary instant of the shape: the same block at t-1ns, t, t+1ns
+fn boundary_cases(variant: usize, kind: Option<Kind>, sh: usize) -> Vec<Case> {
+    let (spec, bs) = match kind {
+        Some(k) => {
+            let (s, b) = shape(k, sh);
+            (Some(s), b)
+        }
+        None => (None, vec![T(START, 0)]),
+    };
+    let mut v = vec![];
+    for b in bs {
+        let mut ops = vec![];
+        if spec.is_some() {
+            ops.push(attach(CREATOR, 0));
+        }
+        for d in [-1i64, 0, 1] {
+            let t = b.plus(d);
+            ops.push(at(t));
+            ops.extend(block(variant, spec.as_ref(), t, b == T(START, 0)));
+        }
+        v.push(base_case(
+            format!("boundary:{}:{}:shape{}:{:?}", VARIANTS[variant].name, kind.map(|k| k.name()).unwrap_or("none"), sh % 3, b),
+            variant,
+            spec.iter().cloned().collect(),
+            ops,
+        ));
+    }
+    v
+}
+
+/// UpdateStartTime at its own boundaries
+fn update_start_cases(variant: usize, kind: Option<Kind>) -> Vec<Case> {
+    let s = T(START, 0);
+    let wls: Vec<WlSpec> = kind.map(|k| shape(k, 0).0).into_iter().collect();
+    let pre: Vec<COp> = if kind.is_some() { vec![attach(CREATOR, 0)] } else { vec![] };
+    let mk = |name: &str, ops: Vec<COp>| {
+        let mut o = pre.clone();
+        o.extend(ops);
+        base_case(format!("update-start:{}:{}:{}", VARIANTS[variant].name, kind.map(|k| k.name()).unwrap_or("none"), name), variant, wls.clone(), o)
+    };
+    let later = T(START + 100, 0);
+    let later2 = T(START + 200, 11);
+    vec![
+        // move later, twice; the old start no longer opens the sale, the new one does, to the nanosecond
+        mk("later", vec![
+            at(T(START - 10, 0)), ust(STRANGER, later), ust(CREATOR, later),
+            at(s.plus(-1)), mint(NM, PUB), at(s), mint(NM, PUB), at(s.plus(1)), mint(NM, PUB),
+            ust(CREATOR, later2),
+            at(later.plus(-1)), mint(NM, PUB), at(later), mint(NM, PUB),
+            at(later2.plus(-1)), mint(NM, PUB), ust(CREATOR, T(START + 300, 0)),
+            at(T(START + 300, -1)), mint(NM, PUB), at(T(START + 300, 0)), mint(NM, PUB), ust(CREATOR, T(START + 400, 0)),
+            at(T(START + 300, 1)), mint(NM, PUB), ust(CREATOR, T(START + 400, 0)),
+        ]),
+        // move earlier: to now+1ns (still closed), then to exactly now (open at once, and frozen)
+        mk("earlier", vec![
+            at(T(2600, 0)), ust(CREATOR, T(2600, 1)), mint(NM, PUB), mint(M1, PUB),
+            ust(CREATOR, T(2600, 0)), mint(NM, PUB), ust(CREATOR, T(2700, 0)), ust(CREATOR, T(2600, 0)),
+            at(T(2600, 1)), mint(M1, PUB), ust(CREATOR, T(2700, 0)),
+        ]),
+        // into the past: now-1ns, creation time, zero-ish
+        mk("past", vec![
+            at(T(2600, 0)), ust(CREATOR, T(2600, -1)), ust(CREATOR, T(0, 0)), ust(CREATOR, T(2599, 0)), mint(NM, PUB),
+            at(T(2600, 5)), ust(CREATOR, T(2600, 4)), ust(CREATOR, T(2600, 5)), mint(NM, PUB),
+        ]),
+        // one nanosecond before the start it still works
+        mk("at-start-1ns", vec![at(s.plus(-1)), ust(STRANGER, T(START + 50, 0)), ust(CREATOR, T(START + 50, 0)), at(s), mint(NM, PUB),
+            at(T(START + 50, -1)), mint(NM, PUB), at(T(START + 50, 0)), mint(NM, PUB)]),
+        // at the start and one nanosecond after it, it is too late
+        mk("at-start", vec![at(s), ust(CREATOR, T(START + 50, 0)), ust(CREATOR, s), mint(NM, PUB), ust(CREATOR, T(START + 50, 0))]),
+        mk("at-start+1ns", vec![at(s.plus(1)), ust(CREATOR, T(START + 50, 0)), ust(CREATOR, s.plus(1)), mint(NM, PUB)]),
+    ]
+}
+
+/// SetWhitelist at the start boundary and at the activity boundaries of the old / the new whitelist
+fn set_whitelist_cases(variant: usize, kind: Kind) -> Vec<Case> {
+    let stage = |s: T, e: T, p: u128, m: &str| StageSpec { start: s, end: e, price: p, members: vec![m.to_string()], stage_limit: None };
+    let mk_spec = |stages: Vec<StageSpec>| WlSpec { kind, stages, limit: 5, leaf_fmt: 0 };
+    // old: [1000, 2000) for M1; new: [1500, 2500) for M2 (two stages when tiered); late: (3500, 4000) after the public start
+    let old = mk_spec(vec![stage(T(1000, 0), T(2000, 0), 60, M1)]);
+    let new = if kind.tiered() {
+        mk_spec(vec![stage(T(1500, 0), T(1800, 0), 70, M2), stage(T(1800, 0), T(2500, 0), 75, M2)])
+    } else {
+        mk_spec(vec![stage(T(1500, 0), T(2500, 0), 70, M2)])
+    };
+    let late = mk_spec(vec![stage(T(3500, 0), T(4000, 0), 80, M2)]);
+    let wls = vec![old, new, late];
+    let probe = |t: T| -> Vec<COp> {
+        // after the attempt: who can mint now?
+        let mut o = vec![];
+        let merkle = VARIANTS[variant].merkle && kind.merkle();
+        for (who, p) in [(M1, 60u128), (M2, 70), (M2, 75), (M2, 80), (NM, PUB)] {
+            if merkle && who != NM {
+                for slot in [0usize, 1, 2] {
+                    o.push(COp::MintP { who: who.into(), funds: native(p), slot, tree: if p == 75 { 1 } else { 0 }, proof_for: Some(who.into()) });
+                }
+            } else {
+                o.push(mint(who, p));
+            }
+        }
+        let _ = t;
+        o
+    };
+    let mut v = vec![];
+    let mut add = |name: String, ops: Vec<COp>| {
+        v.push(base_case(format!("set-whitelist:{}:{}:{}", VARIANTS[variant].name, kind.name(), name), variant, wls.clone(), ops));
+    };
+    let s = T(START, 0);
+    // the start boundary, no whitelist attached yet; the late whitelist opens after the public start
+    for d in [-1i64, 0, 1] {
+        let t = s.plus(d);
+        add(format!("start{:+}ns", d), {
+            let mut o = vec![at(t), attach(STRANGER, 2), attach(CREATOR, 2)];
+            o.extend(probe(t));
+            for t2 in [T(3500, -1), T(3500, 0), T(4000, -1), T(4000, 0), T(4000, 1)] {
+                o.push(at(t2));
+                o.extend(probe(t2));
+            }
+            o
+        });
+    }
+    // replacing the old whitelist around its own activity window
+    let end_old = T(2000, 0);
+    for (nm, t) in [("old-start-1ns", T(1000, -1)), ("old-start", T(1000, 0)), ("old-start+1ns", T(1000, 1)), ("old-end-1ns", end_old.plus(-1)), ("old-end", end_old), ("old-end+1ns", end_old.plus(1))] {
+        add(nm.to_string(), {
+            let mut o = vec![attach(CREATOR, 0), at(t)];
+            // the late whitelist is not active at any of these instants
+            o.push(attach(CREATOR, 2));
+            o.extend(probe(t));
+            o.push(at(T(3500, 0)));
+            o.extend(probe(T(3500, 0)));
+            o
+        });
+    }
+    // attaching a new whitelist around its own activity window (first with none attached, then replacing an ended one)
+    let (ns, ne) = (T(1500, 0), T(2500, 0));
+    for (nm, t) in [("new-start-1ns", ns.plus(-1)), ("new-start", ns), ("new-start+1ns", ns.plus(1)), ("new-end-1ns", ne.plus(-1)), ("new-end", ne), ("new-end+1ns", ne.plus(1))] {
+        add(nm.to_string(), {
+            let mut o = vec![at(t), attach(CREATOR, 1)];
+            o.extend(probe(t));
+            o.push(at(t.plus(1)));
+            o.extend(probe(t.plus(1)));
+            o
+        });
+    }
+    // replace twice before anything is active, then the clock walks into the last one
+    add("replace-twice".into(), {
+        let mut o = vec![attach(CREATOR, 0), attach(CREATOR, 1), attach(CREATOR, 0), attach(CREATOR, 1), at(T(1500, -1))];
+        o.extend(probe(T(1500, -1)));
+        o.push(at(T(1500, 0)));
+        o.push(attach(CREATOR, 0));
+        o.extend(probe(T(1500, 0)));
+        o
+    });
+    v
+}
+
+/// structured random histories: the clock jumps between boundary instants (+-1ns) of the
+/// case's own schedule; mints, schedule updates and whitelist changes in any order
+fn random_case(rng: &mut Rng, variant: usize, n: usize) -> Case {
+    let kinds = compatible(variant);
+    let kind = *rng.pick(kinds);
+    let sh = rng.below(3) as usize;
+    let (mut spec, mut bs) = shape(kind, sh);
+    spec.leaf_fmt = rng.below(4) as u8;
+    if rng.chance(1, 3) {
+        spec.stages[0].stage_limit = Some(rng.range(1, 2) as u32);
+    }
+    // a second whitelist to swap in: a window somewhere before or after the start
+    let k2 = *rng.pick(kinds);
+    let (a, b) = *rng.pick(&[(1200u64, 1400u64), (2100, 2300), (2800, 3100), (3300, 3600)]);
+    let spec2 = WlSpec {
+        kind: k2,
+        stages: vec![StageSpec { start: T(a, 0), end: T(b, 0), price: 65, members: vec![M2.to_string(), NM.to_string()], stage_limit: None }],
+        limit: 5,
+        leaf_fmt: 0,
+    };
+    bs.push(T(a, 0));
+    bs.push(T(b, 0));
+    let mut starts = vec![T(START, 0)];
+    let mut ops = vec![];
+    if rng.chance(3, 4) {
+        ops.push(attach(CREATOR, 0));
+    }
+    let mut now = T(0, 0);
+    let buyers = [M1, M2, NM, STRANGER, CREATOR];
+    for _ in 0..n {
+        match rng.below(100) {
+            0..=21 => {
+                // jump forward to a boundary instant of the schedule (or just a bit)
+                let mut cands: Vec<T> = bs.iter().chain(starts.iter()).flat_map(|b| [b.plus(-1), *b, b.plus(1)]).filter(|t| t.ns() > now.ns()).collect();
+                cands.sort();
+                let t = if cands.is_empty() || rng.chance(1, 6) { T(now.0 + rng.range(1, 120), rng.below(3) as i64) } else { cands[rng.below(cands.len().min(4) as u64) as usize] };
+                now = t;
+                ops.push(at(t));
+            }
+            22..=66 => {
+                let who = *rng.pick(&buyers);
+                let prices: Vec<u128> = spec.stages.iter().map(|s| s.price).chain([PUB, 65, PUB - 1]).collect();
+                let p = *rng.pick(&prices);
+                if VARIANTS[variant].merkle && rng.chance(2, 3) {
+                    let pf = match rng.below(4) {
+                        0 => None,
+                        1 => Some(*rng.pick(&buyers)),
+                        _ => Some(who),
+                    };
+                    ops.push(COp::MintP { who: who.into(), funds: native(p), slot: rng.below(2) as usize, tree: rng.below(3) as usize, proof_for: pf.map(|s| s.to_string()) });
+                } else {
+                    ops.push(mint(who, p));
+                }
+            }
+            67..=76 => {
+                let who = if rng.chance(5, 6) { CREATOR } else { STRANGER };
+                let base = *rng.pick(&[now, now, *starts.last().unwrap(), T(now.0 + 60, 0)]);
+                let t = base.plus(rng.range(0, 2) as i64 - 1);
+                ops.push(ust(who, t));
+                starts.push(t);
+            }
+            77..=88 => {
+                let who = if rng.chance(5, 6) { CREATOR } else { STRANGER };
+                ops.push(attach(who, rng.below(2) as usize));
+            }
+            89..=92 => ops.push(COp::S(Op::WlAddMember { who: (*rng.pick(&[NM, STRANGER])).into() })),
+            93..=96 => ops.push(COp::S(Op::MintTo { who: (*rng.pick(&[CREATOR, CREATOR, STRANGER])).into(), recipient: NM.into(), funds: vec![] })),
+            _ => ops.push(COp::S(Op::MintFor { who: CREATOR.into(), token_id: rng.range(1, 24) as u32, recipient: M1.into(), funds: vec![] })),
+        }
+    }
+    base_case(format!("random:{}:{}+{}", VARIANTS[variant].name, kind.name(), k2.name()), variant, vec![spec, spec2], ops)
+}
+
+/// malformed / adversarial argument stream for the Merkle variants and odd funds
+fn malformed_case(rng: &mut Rng, variant: usize) -> Case {
+    let kinds = compatible(variant);
+    let kind = *rng.pick(kinds);
+    let (spec, _) = shape(kind, 1);
+    let mut ops = vec![attach(CREATOR, 0), at(T(1000, 8))];
+    for _ in 0..14 {
+        let who = *rng.pick(&[M1, NM]);
+        let funds = match rng.below(5) {
+            0 => vec![],
+            1 => vec![(IBC.to_string(), 60)],
+            2 => vec![(NATIVE.to_string(), 60), (IBC.to_string(), 60)],
+            3 => native(61),
+            _ => native(60),
+        };
+        if VARIANTS[variant].merkle {
+            let proof = match rng.below(4) {
+                0 => None,
+                1 => Some(vec![]),
+                2 => Some(vec!["zz".to_string()]),
+                _ => Some(vec![hex::encode([7u8; 32]), hex::encode([9u8; 16])]),
+            };
+            ops.push(COp::S(Op::MintM { who: who.into(), funds, stage: *rng.pick(&[None, Some(0), Some(1), Some(9)]), proof, allocation: *rng.pick(&[None, Some(0), Some(5), Some(1000)]) }));
+        } else {
+            ops.push(COp::S(Op::Mint { who: who.into(), funds }));
+        }
+    }
+    base_case(format!("malformed:{}:{}", VARIANTS[variant].name, kind.name()), variant, vec![spec], ops)
+}
+
+fn corpus(thorough: bool, rng: &mut Rng) -> Vec<Case> {
+    let mut v = vec![];
+    for variant in 0..6 {
+        // the start boundary with no whitelist at all
+        v.extend(boundary_cases(variant, None, 0));
+        let kinds = compatible(variant);
+        for (ki, kind) in kinds.iter().enumerate() {
+            for sh in 0..3 {
+                let cs = boundary_cases(variant, Some(*kind), sh);
+                if thorough {
+                    v.extend(cs);
+                } else {
+                    // quick tier: every (variant, kind, shape) keeps the start boundary and the
+                    // boundaries around it; the rest are sampled
+                    for c in cs {
+                        let keep = c.label.ends_with(&format!("{:?}", T(START, 0))) || rng.chance(3, 5);
+                        if keep {
+                            v.push(c);
+                        }
+                    }
+                }
+            }
+            if thorough || ki == variant % kinds.len() {
+                v.extend(set_whitelist_cases(variant, *kind));
+            } else {
+                // the start boundary of SetWhitelist for every pairing even in the quick tier
+                v.extend(set_whitelist_cases(variant, *kind).into_iter().filter(|c| c.label.contains(":start")));
+            }
+        }
+        v.extend(update_start_cases(variant, None));
+        if thorough {
+            for kind in kinds {
+                v.extend(update_start_cases(variant, Some(*kind)));
+            }
+        } else {
+            v.extend(update_start_cases(variant, Some(kinds[variant % kinds.len()])).into_iter().take(2));
+        }
+    }
+    v
+}
+
+#[derive(Deserialize)]
+struct ReplayFile {
+    case: Case,
+}
+
+pub fn run(a: &Args) {
+    let out = OutDir::new(&a.out);
+    let mut rep = Report { property: "C04".into(), tier: a.tier.clone(), seed: a.seed, ..Default::default() };
+    let cases: Vec<Case> = if let Some(p) = &a.replay {
+        let rf: ReplayFile = serde_json::from_str(&std::fs::read_to_string(p).expect("replay file")).expect("replay json");
+        vec![rf.case]
+    } else {
+        let mut rng = Rng::new(a.seed);
+        let mut v = corpus(a.thorough(), &mut rng);
+        let per_variant = if a.thorough() { 40 } else { 4 };
+        for variant in 0..6 {
+            for _ in 0..per_variant {
+                let n = if a.thorough() { 60 } else { 36 };
+                v.push(random_case(&mut rng, variant, n));
+            }
+            v.push(malformed_case(&mut rng, variant));
+        }
+        v
+    };
+    let mut coq_cases = vec![];
+    let mut nviol = 0;
+    let mut instants: BTreeSet<String> = BTreeSet::new();
+    for (i, c) in cases.iter().enumerate() {
+        let r = run_case(c);
+        rep.evaluations += r.steps;
+        for (k, v) in &r.hist {
+            *rep.histogram.entry(k.clone()).or_insert(0) += v;
+        }
+        for s in &r.instants {
+            instants.insert(format!("{}:{}", c.variant, s));
+        }
+        rep.distinct_nontrivial += r.ok_steps;
+        let mut seen = BTreeSet::new();
+        for (key, what, oi) in r.violations.iter() {
+            if !seen.insert(key.clone()) {
+                continue;
+            }
+            nviol += 1;
+            if nviol <= 20 {
+                // shrink: nothing after the offending op is needed
+                let mut small = c.clone();
+                small.ops.truncate(oi + 1);
+                let body = format!(
+                    "{{\n \"property\": \"C04\",\n \"case\": {},\n \"violation\": {}\n}}\n",
+                    serde_json::to_string(&small).unwrap(),
+                    serde_json::to_string(what).unwrap()
+                );
+                let path = out.write_replay(&format!("C04-{}.json", nviol), &body);
+                rep.violations.push(Violation { key: key.clone(), what: format!("[{}] {}", c.label, what), replay: path });
+            }
+        }
+        if rep.samples.len() < 3 && i % 61 == 5 {
+            rep.samples.push(json!({"label": c.label, "variant": VARIANTS[c.variant].name,
+                "whitelists": c.wls.iter().map(|s| format!("{:?}", s)).collect::<Vec<_>>(),
+                "first_ops": c.ops.iter().take(10).map(|o| format!("{:?}", o)).collect::<Vec<_>>(), "steps": r.steps, "ok_steps": r.ok_steps}));
+        }
+        if let Some(cq) = r.coq {
+            coq_cases.push(cq);
+        }
+    }
+    rep.rule = "histories on each of the six vending minters x its compatible whitelist kinds (plain minters x {plain, tiered}; flex x {flex, tiered-flex}; merkle x {plain, tiered, merkle, tiered-merkle}; and no whitelist): per boundary instant of the schedule (minter start; whitelist start/end; every stage edge of 2- and 3-stage tiered whitelists, touching / separated / overlapping the public start) one history that runs the same block of buyers (member, member of another stage, non-member; own proof / someone else's proof / no proof) at t-1ns, t, t+1ns; UpdateStartTime (later, earlier-but-not-past, past, at start-1ns / start / start+1ns, non-admin) and SetWhitelist (at start-1ns / start / start+1ns, around the old and the new whitelist's activity edges, double replacement, non-admin) histories; structured random interleavings; a malformed-argument stream. evaluations = minter steps executed on the real contracts; distinct_nontrivial = steps that succeeded (state-changing)".into();
+    rep.notes.push(format!("{} histories; {} distinct (variant, op kind, clock offset) triples visited", cases.len(), instants.len()));
+    out.write_cases("C04", "From LP Require Import Num Pay Sg1 Bank MinterVending SaleCorr C04Corr.", "c04_case", "c04_check", &coq_cases, 6, &mut rep);
+    out.finish(&rep);
+    println!("C04 harness: {} cases, {} steps, {} monitor violations", cases.len(), rep.evaluations, nviol);
 }
